@@ -198,27 +198,33 @@ def check_case(ctx, real, case):
                                   'expected': want, 'observed': got})
 
 
-def check_context_sequence(ctx, real, rnd):
+def check_context_sequence(ctx, real, rnd, fixed=None):
     """Credentials given as a RequestContext whose attributes the service rebinds between calls (and copies of it):
-    every call is decided on the attribute values at that moment."""
+    every call is decided on the attribute values at that moment.  `fixed`: the case of a replay file."""
     from oslo_context import context
     import copy as _copy
     policy, enf = real
-    attr = rnd.choice(['project_id', 'user_id', 'domain_id'])
-    rule = rnd.choice(['%s:%%(v)s' % attr, 'not %s:%%(v)s' % attr, '%s:%%(v)s and @' % attr])
+    if fixed is not None:
+        attr, rule, steps = fixed['attr'], fixed['rule'], fixed['steps']
+    else:
+        attr = rnd.choice(['project_id', 'user_id', 'domain_id'])
+        rule = rnd.choice(['%s:%%(v)s' % attr, 'not %s:%%(v)s' % attr, '%s:%%(v)s and @' % attr])
+        steps = []
+        for _ in range(rnd.randint(2, 5)):
+            op = rnd.choice(['rebind', 'rebind', 'copy', 'none'])
+            val = rnd.choice(['v0', 'v1', 'v2', None]) if op == 'rebind' else rnd.choice(['v1', 'v3']) if op == 'copy' else None
+            steps.append([op, val, rnd.choice(['v0', 'v1', 'v2', 'v3', 'None'])])
     enf.set_rules(policy.Rules.from_dict({'p': rule}))
     c = context.RequestContext(**{attr: 'v0', 'roles': ['r']})
     cur = 'v0'
-    for step in range(rnd.randint(2, 5)):
-        op = rnd.choice(['rebind', 'rebind', 'copy', 'none'])
+    for step, (op, val, tv) in enumerate(steps):
         if op == 'rebind':
-            cur = rnd.choice(['v0', 'v1', 'v2', None])
+            cur = val
             setattr(c, attr, cur)
         elif op == 'copy':
             c = _copy.copy(c)
-            cur = rnd.choice(['v1', 'v3'])
+            cur = val
             setattr(c, attr, cur)
-        tv = rnd.choice(['v0', 'v1', 'v2', 'v3', 'None'])
         want = (str(cur) == tv)
         if rule.startswith('not '):
             want = not want
@@ -228,19 +234,19 @@ def check_context_sequence(ctx, real, rnd):
             got = 'EXC:' + type(e).__name__
         ctx.count('context_sequence_decisions')
         if got != want:
-            ctx.violation('stale-credentials-from-request-context', dict(context_sequence=True, rule=rule, attr=attr),
+            ctx.violation('stale-credentials-from-request-context', dict(context_sequence=True, rule=rule, attr=attr, steps=steps),
                           {'rule': rule, 'attribute': attr, 'value_now': cur, 'target_value': tv, 'step': step, 'op': op,
                            'expected': want, 'observed': got})
             return
     ctx.case(['ctx-seq', rule, attr], nontrivial=True, stratum='context-sequence')
 
 
-def check_overlap(ctx, real, rnd):
+def check_overlap(ctx, real, rnd, fixed=None):
     """Two requests evaluate the same attribute check at the same time with different targets (deterministic scheduler,
-    every single pre-emption of one by the other): each is decided as if it ran alone."""
+    every single pre-emption of one by the other): each is decided as if it ran alone.  `fixed`: the case of a replay file."""
     from pv.mon import sched
     policy, enf = real
-    rule = rnd.choice(['project_id:%(pid)s', 'not project_id:%(pid)s', "'p1':%(pid)s", 'a.b:%(pid)s or project_id:%(pid)s'])
+    rule = fixed['rule'] if fixed else rnd.choice(['project_id:%(pid)s', 'not project_id:%(pid)s', "'p1':%(pid)s", 'a.b:%(pid)s or project_id:%(pid)s'])
     enf.set_rules(policy.Rules.from_dict({'p': rule}))
     creds = {'project_id': 'p2', 'a': {'b': 'zz'}, 'roles': []}
 
@@ -261,6 +267,7 @@ def check_overlap(ctx, real, rnd):
 
 
 def run(ctx):
+    ctx.reserve(0.8)          # the strata that come last (overlapping operations) keep a fifth of the wall budget
     from oslo_policy import policy
     enf = policy.Enforcer(env.fresh_conf(), use_conf=False)
     n = N[ctx.tier] // ctx.nshards + 1
@@ -274,6 +281,7 @@ def run(ctx):
         if i % 40 == 0:
             check_context_sequence(ctx, (policy, enf), ctx.rnd)
     ctx.stratum('random', exhaustive=False)
+    ctx.release()
     from pv.mon import sched
     try:
         for i in range(12 if ctx.tier == 'quick' else 200):
@@ -287,4 +295,12 @@ def run(ctx):
 def replay(ctx, case):
     from oslo_policy import policy
     enf = policy.Enforcer(env.fresh_conf(), use_conf=False)
+    if case.get('context_sequence'):
+        return check_context_sequence(ctx, (policy, enf), None, fixed=case)
+    if case.get('overlap'):
+        from pv.mon import sched
+        try:
+            return check_overlap(ctx, (policy, enf), None, fixed=case)
+        finally:
+            sched.uninstall()
     check_case(ctx, (policy, enf), case)
